@@ -176,6 +176,20 @@ def pyfftw_call(array_in, array_out, direction='forward', axes=None,
         if wisdom:
             pyfftw.import_wisdom(wisdom)
 
+    # A plan can only be executed on arrays with the memory layout it was
+    # created for: pyfftw rejects an output with other strides, and it copies
+    # an input with other strides into the array the plan was created with,
+    # which can be the caller's array from an earlier call. Make a new plan
+    # in that case.
+    if fftw_plan_in is not None and (
+            array_in.strides != fftw_plan_in.input_strides or
+            array_out.strides != fftw_plan_in.output_strides or
+            not pyfftw.is_byte_aligned(array_in,
+                                       n=fftw_plan_in.input_alignment) or
+            not pyfftw.is_byte_aligned(array_out,
+                                       n=fftw_plan_in.output_alignment)):
+        fftw_plan_in = None
+
     # Copy input array if it hasn't been done yet and the planner is likely
     # to destroy it. If we already have a plan, we don't have to worry.
     planner_destroys = _pyfftw_destroys_input(
